@@ -15,10 +15,13 @@ package vault
 //vx:redirect (*github.com/openbao/openbao/sdk/v2/framework.FieldData).GetOk vxGetOk
 //vx:redirect (*github.com/openbao/openbao/sdk/v2/framework.FieldData).Get vxGet
 //vx:redirect github.com/hashicorp/go-secure-stdlib/parseutil.ParseDurationSecond vxParseDuration
+//vx:redirect (time.Duration).Seconds vxDurSeconds
 //vx:noop github.com/hashicorp/go-metrics/compat.*
 //vx:noop (*github.com/openbao/openbao/v2/internal/helper/metricsutil.ClusterMetricSink).*
 //vx:noop github.com/openbao/openbao/v2/internal/helper/metricsutil.*
-//vx:param reqpol quick=2 thorough=3
+//vx:param reqpol quick=1 thorough=3
+//vx:param parents quick=2 thorough=3
+//vx:param loginpol quick=2 thorough=3
 //vx:param rolereq quick=1 thorough=2
 //vx:param rolepol quick=1 thorough=2
 //vx:unwind 200
@@ -267,7 +270,7 @@ func vxSetup(nPol int, lifetimes, misc, fullParent bool) (*TokenStore, *vxReq) {
 	if fullParent {
 		pp = vxSubset("parent")
 	} else {
-		pp = [][]string{{"default", "p"}, {"root"}, {"p", "q"}}[vxChoose("parent policies({default,p},{root},{p,q})", 3)]
+		pp = [][]string{{"default", "p"}, {"root"}, {"p", "q"}}[vxChoose("parent policies({default,p},{root},{p,q})", vxParam("parents"))]
 	}
 	vxParent = &logical.TokenEntry{ID: "parent", Policies: pp, NamespaceID: namespace.RootNamespaceID,
 		NumUses: vxInt("parent num_uses"), TTL: vxDur("parent ttl"), EntityID: "ent"}
@@ -344,21 +347,34 @@ func VxRolePolicies() {
 	vxRoleCreate(ts, r, role)
 }
 
-// role endpoint, parameter side: orphaning, token type, use limit, explicit max and period merging
-func VxRoleParams() {
-	ts, r := vxSetup(0, true, true, false)
+// role endpoint, parameter side: orphaning, token type, use limit, custom id / no_parent handling
+func VxRoleMisc() {
+	ts, r := vxSetup(0, false, true, false)
 	role := &tsRoleEntry{Name: "r", Orphan: vxBool("role orphan"), Renewable: true}
 	if vxBool("role has an allowed list") {
 		role.AllowedPolicies = []string{"p"}
 	}
-	role.TokenExplicitMaxTTL = vxDur("role explicit max")
-	role.TokenPeriod = vxDur("role period")
-	vxAssume(role.TokenExplicitMaxTTL >= 0 && role.TokenPeriod >= 0)
 	role.TokenNumUses = vxInt("role num uses")
 	vxAssume(role.TokenNumUses >= 0)
 	role.TokenType = []logical.TokenType{logical.TokenTypeDefault, logical.TokenTypeService, logical.TokenTypeBatch, logical.TokenTypeDefaultBatch}[vxChoose("role token type", 4)]
 	vxRoleCreate(ts, r, role)
 }
+
+// role endpoint, lifetimes: explicit max and period merging between request and role, for ALL durations
+func VxRoleLifetimes() {
+	ts, r := vxSetup(0, true, false, false)
+	role := &tsRoleEntry{Name: "r", Renewable: true}
+	role.TokenExplicitMaxTTL = vxDur("role explicit max")
+	role.TokenPeriod = vxDur("role period")
+	vxAssume(role.TokenExplicitMaxTTL >= 0 && role.TokenPeriod >= 0)
+	if vxBool("role issues batch tokens") {
+		role.TokenType = logical.TokenTypeBatch
+	}
+	vxRoleCreate(ts, r, role)
+}
+
+// (formatting only: the merged values are printed in warnings)
+func vxDurSeconds(d time.Duration) float64 { return 0 }
 
 func vxRoleCreate(ts *TokenStore, r *vxReq, role *tsRoleEntry) {
 	req := &logical.Request{ClientToken: "parent", Path: "create/r", MountPoint: "auth/token/"}
